@@ -1165,10 +1165,11 @@ bool tree<Key, Value, ValueEqual>::compare(
               return false;
             }
           } else {
-            if ((compare_left_to_right && !po.default_is_top()) ||
-                (!compare_left_to_right && po.default_is_top())) {
-              return false;
-            }
+            // The only key of s is unbound in the non-empty tree t:
+            // either s binds a key that has the default value in t
+            // or t binds a key that has the default value in s. One
+            // of them is not allowed by the ordering.
+            return false;
           }
           if (compare_left_to_right && po.default_is_top() && !t->is_leaf()) {
             return false;
